@@ -50,8 +50,13 @@ def mc_case(case):
     sim.run_iteration = wrapped
     d = acct.tmpdir("c10_mc")
     with contextlib.redirect_stdout(io.StringIO()):
-        sim.run_monte_carlo(iterations=case["iters"], start_time=TimeStamp(), stop_time=TimeStamp(hour=case["n_inc"]), time_step=Time(1, TimeUnit.HOUR),
-                            time_unit=TimeUnit.HOUR, save_dir=d, save_iterations=[], debug=True)
+        # the step is not always one unit long (2 h, 1/2 h, 30 min / 90 min written in minutes)
+        from . import c17
+        step_min = case.get("step_min", 60); u = case.get("unit", 3)
+        tot = case["n_inc"] * step_min
+        sim.run_monte_carlo(iterations=case["iters"], start_time=TimeStamp(), stop_time=TimeStamp(day=tot // 1440, hour=(tot % 1440) // 60, minute=tot % 60),
+                            time_step=Time(float(Fraction(step_min * 60) / c17.FACT[u]), c17.U(u)),
+                            time_unit=c17.U(u), save_dir=d, save_iterations=[], debug=True)
     files = {}
     for dp, _, fns in os.walk(os.path.join(d, "monte_carlo")):
         for fn in fns:
@@ -100,6 +105,14 @@ def mc_case(case):
             ens = val(nw.name, "ENS")
             if ens is not None and not close(ens, val(nw.name, "acc_p_energy_shed"), 1e-9):
                 viols.append(("mc.levels", f"iteration {it}: ENS of network {nw.name} is {ens} but its acc_p_energy_shed is {val(nw.name, 'acc_p_energy_shed')}"))
+        # the availability indices of every level: ASUI = SAIDI / simulated period, ASAI + ASUI = 1, both in [0, 1]
+        period = case["n_inc"] * Fraction(case.get("step_min", 60), 60)       # in hours, like SAIDI
+        for name in [ps.name] + [nw.name for nw in ps.child_network_list]:
+            asui, asai, saidi = val(name, "ASUI"), val(name, "ASAI"), val(name, "SAIDI")
+            if asui is None or saidi is None:
+                continue
+            if not close(asui, saidi / float(period), 1e-9) or not close(asai + asui, 1.0, 1e-9) or not (-1e-12 <= asui <= 1 + 1e-12):
+                viols.append(("mc.asui", f"iteration {it}, {name}: ASUI {asui}, ASAI {asai}, SAIDI {saidi} h over a period of {float(period)} h (step {case.get('step_min', 60)} min, unit {c17.U(case.get('unit', 3)).name}): ASUI must be SAIDI / period = {saidi / float(period)}"))
         for attr in tot:
             sv = val(ps.name, attr)
             if sv is not None and not close(sv, tot[attr], 1e-9):
@@ -119,17 +132,20 @@ def e2e(case):
 
     def bus_at(b, attr, t):
         return b.history[attr][t]
+    # the load points' outage times and the time axis are logged in the run's unit, the indices (SAIDI, CAIDI) in hours
+    from . import c17
+    to_h = float(c17.FACT[case.get("unit", 3)]) / 3600.0
 
     for t in times:
         for obj, bl in [(ps, buses)] + [(n, n.buses) for n in nets]:
             N = sum(b.n_customers for b in bl)
             saifi = sum(bus_at(b, "acc_interruptions", t) * b.n_customers for b in bl) / N if N else 0
-            saidi = sum(bus_at(b, "acc_outage_time", t) * b.n_customers for b in bl) / N if N else 0
+            saidi = sum(bus_at(b, "acc_outage_time", t) * to_h * b.n_customers for b in bl) / N if N else 0
             ens = sum(bus_at(b, "acc_p_energy_shed", t) for b in bl)
             accq = sum(bus_at(b, "acc_q_energy_shed", t) for b in bl)
             H = obj.history
             chk = [("SAIFI", saifi), ("SAIDI", saidi), ("ENS", ens), ("acc_p_energy_shed", ens), ("acc_q_energy_shed", accq),
-                   ("ASUI", saidi / t), ("ASAI", 1 - saidi / t), ("CAIDI", saidi / saifi if abs(saifi) >= 1e-6 else 0)]
+                   ("ASUI", saidi / (t * to_h)), ("ASAI", 1 - saidi / (t * to_h)), ("CAIDI", saidi / saifi if abs(saifi) >= 1e-6 else 0)]
             for name, want in chk:
                 got = H[name][t]
                 if not close(got, want):
@@ -194,6 +210,9 @@ def gen_mc(rng, n):
             fd["ev"] = {"0": {"hours": list(range(24)), "table": [str(rng.choice([2, 3, 5])) for _ in range(24)], "v2g": True}}
         cases.append({"kind": "mc", "spec": spec, "n_inc": 10, "iters": rng.choice([3, 4]), "seed": rng.randint(0, 10 ** 6),
                       "rate": rng.choice([800.0, 2000.0]), "rep": rng.choice([2.0, 4.0])})
+        if j % 3 != 2:      # steps that are not one unit long
+            cases[-1]["step_min"], cases[-1]["unit"] = [(120, 3), (30, 2), (30, 3), (90, 2), (180, 3)][(j // 3 + j) % 5]
+            cases[-1]["rep"] = 4.0
     return cases
 
 
